@@ -1,0 +1,891 @@
+//! Verification-only runtime shims for qbice.
+//!
+//! This crate is compiled into `qbice` / `qbice_storage` only when their cargo
+//! feature `verif` is enabled. A source file opts in with one additive line
+//!
+//! ```ignore
+//! #[cfg(feature = "verif")]
+//! use qbice_verif_rt::{tokio, parking_lot, std, crossbeam_channel};
+//! ```
+//!
+//! which shadows the extern crate names *for that file only*, so that the
+//! file's existing, unmodified uses of `tokio::spawn`, `JoinSet`,
+//! `parking_lot::RwLock`, `std::thread`, atomics and channels resolve to
+//! equivalents that run on the `shuttle` runtime, where every scheduling
+//! decision is taken by the model checker's scheduler.
+//!
+//! All shims are *shuttle-only*: they must be used inside a shuttle
+//! execution.
+
+#![allow(missing_docs, clippy::all, clippy::pedantic, clippy::nursery)]
+
+use ::std::{
+    any::Any,
+    future::Future,
+    panic::AssertUnwindSafe,
+    pin::Pin,
+    task::{Context, Poll},
+};
+
+use futures::FutureExt;
+
+pub use shuttle;
+
+/// True iff the caller runs inside a shuttle execution.
+pub fn in_shuttle() -> bool { shuttle::current::get_current_task().is_some() }
+
+/// Explicit scheduling point (no-op outside shuttle).
+pub fn point(_label: &'static str) {
+    if in_shuttle() {
+        shuttle::thread::yield_now();
+    }
+}
+
+// ---------------------------------------------------------------------------
+// process-wide (per OS thread) event counters the harness can read / wait on
+// ---------------------------------------------------------------------------
+
+pub mod events {
+    use ::std::{cell::RefCell, collections::HashMap};
+
+    ::std::thread_local! {
+        static EVENTS: RefCell<HashMap<&'static str, u64>> =
+            RefCell::new(HashMap::new());
+        static PANICS: RefCell<Vec<String>> = const { RefCell::new(Vec::new()) };
+    }
+
+    /// Increment the named counter (per OS thread, i.e. per exploration).
+    pub fn event(name: &'static str) {
+        EVENTS.with(|e| *e.borrow_mut().entry(name).or_insert(0) += 1);
+    }
+
+    pub fn get(name: &'static str) -> u64 {
+        EVENTS.with(|e| e.borrow().get(name).copied().unwrap_or(0))
+    }
+
+    pub fn reset() {
+        EVENTS.with(|e| e.borrow_mut().clear());
+        PANICS.with(|e| e.borrow_mut().clear());
+    }
+
+    /// Record a panic that was swallowed by a detached task.
+    pub fn record_swallowed_panic(msg: String) {
+        PANICS.with(|e| e.borrow_mut().push(msg));
+    }
+
+    pub fn swallowed_panics() -> Vec<String> {
+        PANICS.with(|e| e.borrow().clone())
+    }
+}
+
+fn panic_message(p: &(dyn Any + Send)) -> String {
+    if let Some(s) = p.downcast_ref::<&'static str>() {
+        (*s).to_string()
+    } else if let Some(s) = p.downcast_ref::<String>() {
+        s.clone()
+    } else {
+        "<non-string panic payload>".to_string()
+    }
+}
+
+// ---------------------------------------------------------------------------
+// tokio
+// ---------------------------------------------------------------------------
+
+pub mod tokio {
+    pub use ::tokio::*;
+
+    pub use super::task_shim::spawn;
+
+    pub mod task {
+        pub use ::tokio::task::*;
+
+        pub use super::super::task_shim::{
+            JoinError, JoinHandle, JoinSet, spawn, spawn_blocking, yield_now,
+        };
+    }
+}
+
+pub mod task_shim {
+    use ::std::{
+        collections::VecDeque,
+        sync::{Arc, Mutex},
+    };
+
+    use super::*;
+
+    pub struct JoinError(Option<Box<dyn Any + Send + 'static>>);
+
+    impl JoinError {
+        pub fn try_into_panic(
+            self,
+        ) -> Result<Box<dyn Any + Send + 'static>, Self> {
+            match self.0 {
+                Some(p) => Ok(p),
+                None => Err(JoinError(None)),
+            }
+        }
+
+        pub fn into_panic(self) -> Box<dyn Any + Send + 'static> {
+            self.0.expect("not a panic")
+        }
+
+        pub fn is_panic(&self) -> bool { self.0.is_some() }
+
+        pub fn is_cancelled(&self) -> bool { self.0.is_none() }
+    }
+
+    impl ::std::fmt::Debug for JoinError {
+        fn fmt(&self, f: &mut ::std::fmt::Formatter<'_>) -> ::std::fmt::Result {
+            write!(f, "JoinError(panic={})", self.0.is_some())
+        }
+    }
+
+    impl ::std::fmt::Display for JoinError {
+        fn fmt(&self, f: &mut ::std::fmt::Formatter<'_>) -> ::std::fmt::Result {
+            write!(f, "JoinError(panic={})", self.0.is_some())
+        }
+    }
+
+    impl ::std::error::Error for JoinError {}
+
+    type Slot<T> = Arc<Mutex<Option<Result<T, Box<dyn Any + Send + 'static>>>>>;
+
+    /// Handle to a spawned task. Like tokio's: dropping it detaches the task;
+    /// a panic of the task is delivered through the handle (and recorded as
+    /// "swallowed" if nobody ever looks at it).
+    pub struct JoinHandle<T> {
+        inner: shuttle::future::JoinHandle<()>,
+        slot: Slot<T>,
+    }
+
+    impl<T> JoinHandle<T> {
+        pub fn abort(&self) { self.inner.abort() }
+
+        pub fn is_finished(&self) -> bool { self.inner.is_finished() }
+    }
+
+    impl<T> Unpin for JoinHandle<T> {}
+
+    impl<T> Future for JoinHandle<T> {
+        type Output = Result<T, JoinError>;
+
+        fn poll(
+            mut self: Pin<&mut Self>,
+            cx: &mut Context<'_>,
+        ) -> Poll<Self::Output> {
+            match Pin::new(&mut self.inner).poll(cx) {
+                Poll::Pending => Poll::Pending,
+                Poll::Ready(Ok(())) => {
+                    match self.slot.lock().unwrap().take() {
+                        Some(Ok(v)) => Poll::Ready(Ok(v)),
+                        Some(Err(p)) => Poll::Ready(Err(JoinError(Some(p)))),
+                        None => Poll::Ready(Err(JoinError(None))),
+                    }
+                }
+                Poll::Ready(Err(_)) => Poll::Ready(Err(JoinError(None))),
+            }
+        }
+    }
+
+    impl<T> Drop for JoinHandle<T> {
+        fn drop(&mut self) {
+            // a panic nobody consumed: tokio swallows it silently; remember
+            // it for the harness' "no unexpected panic" oracle.
+            if let Ok(mut g) = self.slot.lock() {
+                if let Some(Err(p)) = g.take() {
+                    events::record_swallowed_panic(panic_message(&*p));
+                }
+            }
+        }
+    }
+
+
+    fn spawn_with_hook<F>(
+        f: F,
+        on_done: impl FnOnce() + Send + 'static,
+    ) -> JoinHandle<F::Output>
+    where
+        F: Future + Send + 'static,
+        F::Output: Send + 'static,
+    {
+        let slot: Slot<F::Output> = Arc::new(Mutex::new(None));
+        let slot2 = slot.clone();
+
+        let inner = shuttle::future::spawn(async move {
+            let r = AssertUnwindSafe(f).catch_unwind().await;
+
+            // if nobody holds the handle any more the panic is lost in tokio
+            let detached = Arc::strong_count(&slot2) == 1;
+            match r {
+                Err(p) if detached => {
+                    events::record_swallowed_panic(panic_message(&*p));
+                }
+                r => {
+                    *slot2.lock().unwrap() = Some(r);
+                }
+            }
+
+            on_done();
+        });
+
+        JoinHandle { inner, slot }
+    }
+
+    pub fn spawn<F>(f: F) -> JoinHandle<F::Output>
+    where
+        F: Future + Send + 'static,
+        F::Output: Send + 'static,
+    {
+        spawn_with_hook(f, || {})
+    }
+
+    /// Runs the closure inline (the engine only uses it to drop things).
+    pub fn spawn_blocking<F, R>(f: F) -> JoinHandle<R>
+    where
+        F: FnOnce() -> R + Send + 'static,
+        R: Send + 'static,
+    {
+        let r = f();
+        spawn(async move { r })
+    }
+
+    pub async fn yield_now() { shuttle::future::yield_now().await }
+
+    /// `tokio::task::JoinSet` look-alike: results are handed out in
+    /// completion order; dropping the set aborts the remaining tasks.
+    pub struct JoinSet<T> {
+        handles: Vec<(usize, JoinHandle<T>)>,
+        done: Arc<Mutex<VecDeque<usize>>>,
+        next_id: usize,
+    }
+
+    impl<T: Send + 'static> Default for JoinSet<T> {
+        fn default() -> Self { Self::new() }
+    }
+
+    impl<T> ::std::fmt::Debug for JoinSet<T> {
+        fn fmt(&self, f: &mut ::std::fmt::Formatter<'_>) -> ::std::fmt::Result {
+            write!(f, "JoinSet(len={})", self.handles.len())
+        }
+    }
+
+    impl<T: Send + 'static> JoinSet<T> {
+        pub fn new() -> Self {
+            Self {
+                handles: Vec::new(),
+                done: Arc::new(Mutex::new(VecDeque::new())),
+                next_id: 0,
+            }
+        }
+
+        pub fn len(&self) -> usize { self.handles.len() }
+
+        pub fn is_empty(&self) -> bool { self.handles.is_empty() }
+
+        pub fn spawn<F>(&mut self, f: F)
+        where
+            F: Future<Output = T> + Send + 'static,
+        {
+            let id = self.next_id;
+            self.next_id += 1;
+            let done = self.done.clone();
+            let h = spawn_with_hook(f, move || {
+                done.lock().unwrap().push_back(id);
+            });
+            self.handles.push((id, h));
+        }
+
+        pub fn abort_all(&mut self) {
+            for (_, h) in &self.handles {
+                h.abort();
+            }
+        }
+
+        pub async fn join_next(&mut self) -> Option<Result<T, JoinError>> {
+            if self.handles.is_empty() {
+                return None;
+            }
+
+            ::std::future::poll_fn(|cx| {
+                // completion order first
+                loop {
+                    let next = self.done.lock().unwrap().pop_front();
+                    let Some(id) = next else { break };
+                    if let Some(pos) =
+                        self.handles.iter().position(|(i, _)| *i == id)
+                    {
+                        if let Poll::Ready(r) =
+                            Pin::new(&mut self.handles[pos].1).poll(cx)
+                        {
+                            drop(self.handles.remove(pos));
+                            return Poll::Ready(Some(r));
+                        }
+                        // completed but handle not ready yet: retry later
+                        self.done.lock().unwrap().push_front(id);
+                        break;
+                    }
+                }
+
+                // cancelled tasks never announce themselves
+                for i in 0..self.handles.len() {
+                    if let Poll::Ready(r) =
+                        Pin::new(&mut self.handles[i].1).poll(cx)
+                    {
+                        drop(self.handles.remove(i));
+                        return Poll::Ready(Some(r));
+                    }
+                }
+
+                Poll::Pending
+            })
+            .await
+        }
+    }
+
+    impl<T> Drop for JoinSet<T> {
+        fn drop(&mut self) {
+            for (_, h) in &self.handles {
+                h.abort();
+            }
+        }
+    }
+}
+
+// ---------------------------------------------------------------------------
+// std (threads + atomics + available_parallelism)
+// ---------------------------------------------------------------------------
+
+pub mod std {
+    pub use ::std::*;
+
+    pub mod thread {
+        pub use ::std::thread::*;
+        pub use shuttle::thread::{
+            Builder, JoinHandle, current, park, sleep, spawn, yield_now,
+        };
+
+        ::std::thread_local! {
+            static PARALLELISM: ::std::cell::Cell<usize> =
+                const { ::std::cell::Cell::new(2) };
+        }
+
+        /// Harness knob: what `available_parallelism` reports (default 2).
+        pub fn set_available_parallelism(n: usize) {
+            PARALLELISM.with(|p| p.set(n.max(1)));
+        }
+
+        pub fn available_parallelism()
+        -> ::std::io::Result<::std::num::NonZeroUsize> {
+            Ok(::std::num::NonZeroUsize::new(PARALLELISM.with(|p| p.get()))
+                .unwrap())
+        }
+    }
+
+    pub mod sync {
+        pub use ::std::sync::*;
+
+        pub mod atomic {
+            pub use ::std::sync::atomic::*;
+            pub use shuttle::sync::atomic::{
+                AtomicBool, AtomicI8, AtomicI16, AtomicI32, AtomicI64,
+                AtomicIsize, AtomicU8, AtomicU16, AtomicU32, AtomicU64,
+                AtomicUsize,
+            };
+        }
+    }
+}
+
+// ---------------------------------------------------------------------------
+// crossbeam_channel / crossbeam::channel
+// ---------------------------------------------------------------------------
+
+pub mod crossbeam {
+    pub use ::crossbeam::*;
+
+    pub use super::crossbeam_channel as channel;
+}
+
+pub mod crossbeam_channel {
+    use ::std::{collections::VecDeque, sync::Arc, time::Duration};
+
+    use shuttle::sync::{Condvar, Mutex};
+
+    struct Inner<T> {
+        q: VecDeque<T>,
+        cap: Option<usize>,
+        senders: usize,
+        receivers: usize,
+    }
+
+    struct Chan<T> {
+        m: Mutex<Inner<T>>,
+        cv: Condvar,
+    }
+
+    pub struct Sender<T>(Arc<Chan<T>>);
+    pub struct Receiver<T>(Arc<Chan<T>>);
+
+    impl<T> ::std::fmt::Debug for Sender<T> {
+        fn fmt(&self, f: &mut ::std::fmt::Formatter<'_>) -> ::std::fmt::Result {
+            f.write_str("Sender { .. }")
+        }
+    }
+
+    impl<T> ::std::fmt::Debug for Receiver<T> {
+        fn fmt(&self, f: &mut ::std::fmt::Formatter<'_>) -> ::std::fmt::Result {
+            f.write_str("Receiver { .. }")
+        }
+    }
+
+    pub struct SendError<T>(pub T);
+
+    impl<T> ::std::fmt::Debug for SendError<T> {
+        fn fmt(&self, f: &mut ::std::fmt::Formatter<'_>) -> ::std::fmt::Result {
+            f.write_str("SendError(..)")
+        }
+    }
+
+    pub enum TrySendError<T> {
+        Full(T),
+        Disconnected(T),
+    }
+
+    impl<T> ::std::fmt::Debug for TrySendError<T> {
+        fn fmt(&self, f: &mut ::std::fmt::Formatter<'_>) -> ::std::fmt::Result {
+            match self {
+                Self::Full(_) => f.write_str("Full(..)"),
+                Self::Disconnected(_) => f.write_str("Disconnected(..)"),
+            }
+        }
+    }
+
+    #[derive(Debug, PartialEq, Eq, Clone, Copy)]
+    pub struct RecvError;
+
+    #[derive(Debug, PartialEq, Eq, Clone, Copy)]
+    pub enum TryRecvError {
+        Empty,
+        Disconnected,
+    }
+
+    #[derive(Debug, PartialEq, Eq, Clone, Copy)]
+    pub enum RecvTimeoutError {
+        Timeout,
+        Disconnected,
+    }
+
+    fn chan<T>(cap: Option<usize>) -> (Sender<T>, Receiver<T>) {
+        let c = Arc::new(Chan {
+            m: Mutex::new(Inner {
+                q: VecDeque::new(),
+                cap,
+                senders: 1,
+                receivers: 1,
+            }),
+            cv: Condvar::new(),
+        });
+        (Sender(c.clone()), Receiver(c))
+    }
+
+    pub fn unbounded<T>() -> (Sender<T>, Receiver<T>) { chan(None) }
+
+    pub fn bounded<T>(cap: usize) -> (Sender<T>, Receiver<T>) {
+        chan(Some(cap))
+    }
+
+    impl<T> Sender<T> {
+        pub fn send(&self, t: T) -> Result<(), SendError<T>> {
+            let mut g = self.0.m.lock().unwrap();
+            loop {
+                if g.receivers == 0 {
+                    return Err(SendError(t));
+                }
+                if g.cap.is_none_or(|c| g.q.len() < c) {
+                    break;
+                }
+                g = self.0.cv.wait(g).unwrap();
+            }
+            g.q.push_back(t);
+            drop(g);
+            self.0.cv.notify_all();
+            Ok(())
+        }
+
+        pub fn try_send(&self, t: T) -> Result<(), TrySendError<T>> {
+            let mut g = self.0.m.lock().unwrap();
+            if g.receivers == 0 {
+                return Err(TrySendError::Disconnected(t));
+            }
+            if g.cap.is_some_and(|c| g.q.len() >= c) {
+                return Err(TrySendError::Full(t));
+            }
+            g.q.push_back(t);
+            drop(g);
+            self.0.cv.notify_all();
+            Ok(())
+        }
+    }
+
+    impl<T> Clone for Sender<T> {
+        fn clone(&self) -> Self {
+            self.0.m.lock().unwrap().senders += 1;
+            Sender(self.0.clone())
+        }
+    }
+
+    impl<T> Drop for Sender<T> {
+        fn drop(&mut self) {
+            let mut g = self.0.m.lock().unwrap();
+            g.senders -= 1;
+            drop(g);
+            self.0.cv.notify_all();
+        }
+    }
+
+    impl<T> Receiver<T> {
+        pub fn recv(&self) -> Result<T, RecvError> {
+            let mut g = self.0.m.lock().unwrap();
+            loop {
+                if let Some(t) = g.q.pop_front() {
+                    drop(g);
+                    self.0.cv.notify_all();
+                    return Ok(t);
+                }
+                if g.senders == 0 {
+                    return Err(RecvError);
+                }
+                g = self.0.cv.wait(g).unwrap();
+            }
+        }
+
+        pub fn try_recv(&self) -> Result<T, TryRecvError> {
+            let mut g = self.0.m.lock().unwrap();
+            if let Some(t) = g.q.pop_front() {
+                drop(g);
+                self.0.cv.notify_all();
+                return Ok(t);
+            }
+            if g.senders == 0 {
+                Err(TryRecvError::Disconnected)
+            } else {
+                Err(TryRecvError::Empty)
+            }
+        }
+
+        /// Timer expiry is not modelled: behaves like a blocking `recv`
+        /// (the harness triggers periodic work explicitly).
+        pub fn recv_timeout(
+            &self,
+            _timeout: Duration,
+        ) -> Result<T, RecvTimeoutError> {
+            self.recv().map_err(|_| RecvTimeoutError::Disconnected)
+        }
+
+        pub fn len(&self) -> usize { self.0.m.lock().unwrap().q.len() }
+
+        pub fn is_empty(&self) -> bool { self.len() == 0 }
+    }
+
+    impl<T> Clone for Receiver<T> {
+        fn clone(&self) -> Self {
+            self.0.m.lock().unwrap().receivers += 1;
+            Receiver(self.0.clone())
+        }
+    }
+
+    impl<T> Drop for Receiver<T> {
+        fn drop(&mut self) {
+            let mut g = self.0.m.lock().unwrap();
+            g.receivers -= 1;
+            drop(g);
+            self.0.cv.notify_all();
+        }
+    }
+}
+
+// ---------------------------------------------------------------------------
+// parking_lot
+// ---------------------------------------------------------------------------
+
+pub mod parking_lot {
+    use ::std::{
+        cell::UnsafeCell,
+        ops::{Deref, DerefMut},
+    };
+
+    use shuttle::sync::{Condvar, Mutex as SMutex};
+
+    pub use ::std::sync::TryLockError;
+
+    #[derive(Default)]
+    struct St {
+        readers: usize,
+        writer: bool,
+    }
+
+    // ---------------- RwLock ----------------
+
+    pub struct RwLock<T: ?Sized> {
+        st: SMutex<St>,
+        cv: Condvar,
+        data: UnsafeCell<T>,
+    }
+
+    unsafe impl<T: ?Sized + Send> Send for RwLock<T> {}
+    unsafe impl<T: ?Sized + Send + Sync> Sync for RwLock<T> {}
+
+    impl<T: Default> Default for RwLock<T> {
+        fn default() -> Self { Self::new(T::default()) }
+    }
+
+    impl<T: ?Sized> ::std::fmt::Debug for RwLock<T> {
+        fn fmt(&self, f: &mut ::std::fmt::Formatter<'_>) -> ::std::fmt::Result {
+            f.write_str("RwLock { .. }")
+        }
+    }
+
+    impl<T> RwLock<T> {
+        pub const fn new(v: T) -> Self {
+            Self {
+                st: SMutex::new(St { readers: 0, writer: false }),
+                cv: Condvar::new(),
+                data: UnsafeCell::new(v),
+            }
+        }
+
+        pub fn into_inner(self) -> T { self.data.into_inner() }
+    }
+
+    impl<T: ?Sized> RwLock<T> {
+        pub fn read(&self) -> RwLockReadGuard<'_, T> {
+            let mut g = self.st.lock().unwrap();
+            while g.writer {
+                g = self.cv.wait(g).unwrap();
+            }
+            g.readers += 1;
+            RwLockReadGuard { l: self }
+        }
+
+        pub fn read_recursive(&self) -> RwLockReadGuard<'_, T> { self.read() }
+
+        pub fn write(&self) -> RwLockWriteGuard<'_, T> {
+            let mut g = self.st.lock().unwrap();
+            while g.writer || g.readers > 0 {
+                g = self.cv.wait(g).unwrap();
+            }
+            g.writer = true;
+            RwLockWriteGuard { l: self }
+        }
+
+        pub fn try_read(&self) -> Option<RwLockReadGuard<'_, T>> {
+            let mut g = self.st.lock().unwrap();
+            if g.writer {
+                None
+            } else {
+                g.readers += 1;
+                Some(RwLockReadGuard { l: self })
+            }
+        }
+
+        pub fn try_write(&self) -> Option<RwLockWriteGuard<'_, T>> {
+            let mut g = self.st.lock().unwrap();
+            if g.writer || g.readers > 0 {
+                None
+            } else {
+                g.writer = true;
+                Some(RwLockWriteGuard { l: self })
+            }
+        }
+
+        pub fn get_mut(&mut self) -> &mut T { self.data.get_mut() }
+
+        fn unlock_read(&self) {
+            let mut g = self.st.lock().unwrap();
+            g.readers -= 1;
+            drop(g);
+            self.cv.notify_all();
+        }
+    }
+
+    pub struct RwLockReadGuard<'a, T: ?Sized> {
+        l: &'a RwLock<T>,
+    }
+
+    pub struct RwLockWriteGuard<'a, T: ?Sized> {
+        l: &'a RwLock<T>,
+    }
+
+    unsafe impl<T: ?Sized + Sync> Send for RwLockReadGuard<'_, T> {}
+    unsafe impl<T: ?Sized + Sync> Sync for RwLockReadGuard<'_, T> {}
+    unsafe impl<T: ?Sized + Send> Send for RwLockWriteGuard<'_, T> {}
+    unsafe impl<T: ?Sized + Sync> Sync for RwLockWriteGuard<'_, T> {}
+
+    impl<T: ?Sized> Deref for RwLockReadGuard<'_, T> {
+        type Target = T;
+
+        fn deref(&self) -> &T { unsafe { &*self.l.data.get() } }
+    }
+
+    impl<T: ?Sized> Deref for RwLockWriteGuard<'_, T> {
+        type Target = T;
+
+        fn deref(&self) -> &T { unsafe { &*self.l.data.get() } }
+    }
+
+    impl<T: ?Sized> DerefMut for RwLockWriteGuard<'_, T> {
+        fn deref_mut(&mut self) -> &mut T { unsafe { &mut *self.l.data.get() } }
+    }
+
+    impl<T: ?Sized> Drop for RwLockReadGuard<'_, T> {
+        fn drop(&mut self) { self.l.unlock_read(); }
+    }
+
+    impl<T: ?Sized> Drop for RwLockWriteGuard<'_, T> {
+        fn drop(&mut self) {
+            let mut g = self.l.st.lock().unwrap();
+            g.writer = false;
+            drop(g);
+            self.l.cv.notify_all();
+        }
+    }
+
+    impl<T: ?Sized + ::std::fmt::Debug> ::std::fmt::Debug
+        for RwLockReadGuard<'_, T>
+    {
+        fn fmt(&self, f: &mut ::std::fmt::Formatter<'_>) -> ::std::fmt::Result {
+            (**self).fmt(f)
+        }
+    }
+
+    impl<T: ?Sized + ::std::fmt::Debug> ::std::fmt::Debug
+        for RwLockWriteGuard<'_, T>
+    {
+        fn fmt(&self, f: &mut ::std::fmt::Formatter<'_>) -> ::std::fmt::Result {
+            (**self).fmt(f)
+        }
+    }
+
+    /// Read guard mapped to a component of the protected data. The unlock
+    /// closure is type-erased so that `U` need not relate to the lock's `T`.
+    pub struct MappedRwLockReadGuard<'a, U: ?Sized> {
+        ptr: *const U,
+        unlock: Option<Box<dyn FnOnce() + Send + 'a>>,
+    }
+
+    unsafe impl<U: ?Sized + Sync> Send for MappedRwLockReadGuard<'_, U> {}
+    unsafe impl<U: ?Sized + Sync> Sync for MappedRwLockReadGuard<'_, U> {}
+
+    impl<U: ?Sized> Deref for MappedRwLockReadGuard<'_, U> {
+        type Target = U;
+
+        fn deref(&self) -> &U { unsafe { &*self.ptr } }
+    }
+
+    impl<U: ?Sized> Drop for MappedRwLockReadGuard<'_, U> {
+        fn drop(&mut self) {
+            if let Some(u) = self.unlock.take() {
+                u();
+            }
+        }
+    }
+
+    struct SendPtr<T: ?Sized>(*const RwLock<T>);
+    unsafe impl<T: ?Sized> Send for SendPtr<T> {}
+
+    impl<'a, T: ?Sized + 'a> RwLockReadGuard<'a, T> {
+        pub fn map<U: ?Sized, F>(s: Self, f: F) -> MappedRwLockReadGuard<'a, U>
+        where
+            F: FnOnce(&T) -> &U,
+        {
+            let l = s.l;
+            ::std::mem::forget(s);
+            let ptr: *const U = f(unsafe { &*l.data.get() });
+            let lp = SendPtr(l as *const RwLock<T>);
+            MappedRwLockReadGuard {
+                ptr,
+                unlock: Some(Box::new(move || {
+                    let lp = lp;
+                    unsafe { (*lp.0).unlock_read() }
+                })),
+            }
+        }
+
+        pub fn try_map<U: ?Sized, F>(
+            s: Self,
+            f: F,
+        ) -> Result<MappedRwLockReadGuard<'a, U>, Self>
+        where
+            F: FnOnce(&T) -> Option<&U>,
+        {
+            let l = s.l;
+            match f(unsafe { &*l.data.get() }) {
+                Some(u) => {
+                    let ptr: *const U = u;
+                    ::std::mem::forget(s);
+                    let lp = SendPtr(l as *const RwLock<T>);
+                    Ok(MappedRwLockReadGuard {
+                        ptr,
+                        unlock: Some(Box::new(move || {
+                            let lp = lp;
+                            unsafe { (*lp.0).unlock_read() }
+                        })),
+                    })
+                }
+                None => Err(s),
+            }
+        }
+    }
+
+    // ---------------- Mutex ----------------
+
+    pub struct Mutex<T: ?Sized> {
+        inner: SMutex<T>,
+    }
+
+    impl<T: Default> Default for Mutex<T> {
+        fn default() -> Self { Self::new(T::default()) }
+    }
+
+    impl<T: ?Sized> ::std::fmt::Debug for Mutex<T> {
+        fn fmt(&self, f: &mut ::std::fmt::Formatter<'_>) -> ::std::fmt::Result {
+            f.write_str("Mutex { .. }")
+        }
+    }
+
+    impl<T> Mutex<T> {
+        pub const fn new(v: T) -> Self { Self { inner: SMutex::new(v) } }
+    }
+
+    pub struct MutexGuard<'a, T: ?Sized>(shuttle::sync::MutexGuard<'a, T>);
+
+    // parking_lot's `send_guard` feature makes guards `Send`; all shuttle
+    // tasks share one OS thread, so moving a guard between tasks is fine.
+    unsafe impl<T: ?Sized + Send> Send for MutexGuard<'_, T> {}
+
+    impl<T: ?Sized> Deref for MutexGuard<'_, T> {
+        type Target = T;
+
+        fn deref(&self) -> &T { &self.0 }
+    }
+
+    impl<T: ?Sized> DerefMut for MutexGuard<'_, T> {
+        fn deref_mut(&mut self) -> &mut T { &mut self.0 }
+    }
+
+    impl<T: ?Sized> Mutex<T> {
+        pub fn lock(&self) -> MutexGuard<'_, T> {
+            MutexGuard(self.inner.lock().unwrap())
+        }
+
+        pub fn try_lock(&self) -> Option<MutexGuard<'_, T>> {
+            match self.inner.try_lock() {
+                Ok(g) => Some(MutexGuard(g)),
+                Err(TryLockError::WouldBlock) => None,
+                Err(TryLockError::Poisoned(p)) => {
+                    Some(MutexGuard(p.into_inner()))
+                }
+            }
+        }
+    }
+}
